@@ -295,7 +295,7 @@ func c13refcount(addrPort ...bool) zzmc.Scenario {
 			under := m.connsIPv4["u1"]
 			dst := &net.UDPAddr{IP: net.ParseIP("10.0.0.9").To4(), Port: 9}
 			fail := ""
-			h1closed, h2closed, h2closing := false, false, false
+			h1closed, h2closing := false, false
 			var r1err, r2err, w2err, c1err, c1berr error
 			r1done, r2done := false, false
 			underClosed := func() bool {
@@ -316,7 +316,7 @@ func c13refcount(addrPort ...bool) zzmc.Scenario {
 			s.Go("C1", func() {
 				c1err = h1.Close()
 				h1closed = true
-				if !h2closed && underClosed() {
+				if uc := underClosed(); uc && !h2closing { // observed closed first, and the sibling's own Close has not even begun afterwards
 					fail += "UNDERLYING-CLOSED-WHILE-SIBLING-OPEN "
 				}
 				if _, err := h1.WriteTo([]byte("x"), dst); err == nil {
@@ -336,7 +336,7 @@ func c13refcount(addrPort ...bool) zzmc.Scenario {
 					fail += "HANDLE-OVER-AN-ADDRPORT-SOCKET-LACKS-ADDRPORT-IO "
 				}
 				c1berr = h1.Close() // closing twice must not release a second reference
-				if !h2closed && underClosed() {
+				if uc := underClosed(); uc && !h2closing { // observed closed first, and the sibling's own Close has not even begun afterwards
 					fail += "SECOND-CLOSE-RELEASED-SIBLING-REFERENCE "
 				}
 			})
@@ -357,7 +357,6 @@ func c13refcount(addrPort ...bool) zzmc.Scenario {
 				zzmc.HarnessPoint("c2")
 				h2closing = true
 				_ = h2.Close()
-				h2closed = true
 				if h1closed && !underClosed() {
 					fail += "UNDERLYING-NOT-CLOSED-AFTER-LAST-HANDLE "
 				}
@@ -416,7 +415,7 @@ func checkC13(c *runCtx) {
 	c.assume("sequential consistency between scheduling points (every atomic, mutex, channel operation, go statement and Gosched of the mux files; the fake socket adds points around its blocking write and SetWriteDeadline)",
 		"spin loops are scheduled with the fair-yield rule (a yielding thread is disabled until every thread enabled at that moment has stepped), so starvation by an unfair scheduler is not reported as a livelock",
 		"the TCP mux handles use the same sharedPacketConn wrapper; their routing and teardown are C15's subject")
-	dl := c01deadline(c, 150, 1200)
+	dl := c01deadline(c, 240, 1200)
 	b := 3
 	if !c.quick() {
 		b = 4
@@ -439,4 +438,5 @@ func checkC13(c *runCtx) {
 	csExplore(c, "writeabort-addrport-ctx-writer", b-1, dl, nil)
 	csExplore(c, "refcount-udp", b, dl, nil)
 	csExplore(c, "refcount-udp-addrport", b-1, dl, nil)
+	csExplore(c, "refcount-tcp", b, dl, nil)
 }
